@@ -6,16 +6,23 @@ Import String.StringSyntax.
 From DT Require Import PyStr PyVal PureUtils Defaults IR Fill DocEmit C18Spec FillFacts DocEmitFacts C18Facts.
 Import ListNotations.
 
-(* textwrap.fill on its fragment (no tab, no breakable hyphen, no word longer than the width), for every
-   width and text of any length: (a) every line fits, (b) the words are those of the input in order,
-   (c) no line ends with a blank and none but the first starts with one *)
+(* pure_utils.fill (textwrap.fill, break_long_words=False, break_on_hyphens=False) on its fragment (no tab),
+   for every width and text of any length: (a) every line fits or is a single word longer than the width,
+   (b) the words are those of the input in order, (c) no line ends with a blank and none but the first
+   starts with one *)
 Theorem C18_fill : forall w s r, fill w s = Ok r -> C18_fill_at w s r.
 Proof. exact C18_fill_lemma. Qed.
 Print Assumptions C18_fill.
 
-Theorem C18_fill_width : forall w s r, fill w s = Ok r -> lines_le w r.
+Theorem C18_fill_width : forall w s r, fill w s = Ok r -> lines_le_or_word w r.
 Proof. exact fill_width. Qed.
 Print Assumptions C18_fill_width.
+
+(* when no word of the input is longer than the width, every line fits *)
+Theorem C18_fill_width_strict : forall w s r, fill w s = Ok r ->
+    Forall (fun u => List.length u <= w) (words s) -> lines_le w r.
+Proof. exact fill_width_strict. Qed.
+Print Assumptions C18_fill_width_strict.
 
 Theorem C18_fill_words : forall w s r, fill w s = Ok r -> words r = words s.
 Proof. exact fill_words. Qed.
@@ -25,18 +32,23 @@ Theorem C18_fill_edges : forall w s r, fill w s = Ok r -> clean_edges r.
 Proof. exact fill_edges. Qed.
 Print Assumptions C18_fill_edges.
 
-(* guard form: the boolean guard is exactly the domain on which the model of fill answers, and there the
-   property of fill holds *)
+(* guard form: the boolean guard (positive width, no tab) is exactly the domain on which the model of fill
+   answers, and there the property of fill holds *)
 Theorem C18_fill_partial : forall w s, fill_guard w s = true -> exists r, fill w s = Ok r /\ C18_fill_at w s r.
 Proof. exact C18_fill_partial_lemma. Qed.
 Print Assumptions C18_fill_partial.
 
-(* class-free corollary: any hyphen-free words, none longer than the width, separated by single blanks, are
-   inside the guard; the wrapped text consists of exactly these words *)
-Theorem C18_fill_plain_words : forall w ws, 0 < w -> forallb (plain_word w) ws = true ->
-    exists r, fill w (join [sp] ws) = Ok r /\ lines_le w r /\ words r = ws /\ clean_edges r.
+(* class-free corollary: any words (hyphens, punctuation, any length) separated by single blanks are inside
+   the guard; the wrapped text consists of exactly these words; every line fits when every word does *)
+Theorem C18_fill_plain_words : forall w ws, 0 < w -> forallb plain_word ws = true ->
+    exists r, fill w (join [sp] ws) = Ok r /\ lines_le_or_word w r /\ words r = ws /\ clean_edges r
+              /\ (Forall (fun u => List.length u <= w) ws -> lines_le w r).
 Proof. exact C18_fill_plain_words_lemma. Qed.
 Print Assumptions C18_fill_plain_words.
+
+Theorem C18_fill_guard_exact : forall w s, fill_guard w s = true <-> exists r, fill w s = Ok r.
+Proof. exact fill_guard_exact. Qed.
+Print Assumptions C18_fill_guard_exact.
 
 (* text that fits on one line comes back unchanged *)
 Theorem C18_fill_fits : forall w s, 0 < w -> one_line_clean s = true -> List.length s <= w -> fill w s = Ok s.
@@ -71,6 +83,12 @@ Theorem C18_docstring_words : forall w st edd i tw i1,
     exists tu, emit_docstring w st false edd i = Ok (tu, i1) /\ words tw = words tu.
 Proof. exact C18_docstring_words_lemma. Qed.
 Print Assumptions C18_docstring_words.
+
+(* to_docstring works on copies of the param dicts: the caller's IR is left as it was *)
+Theorem C18_to_docstring_ir : forall w i edd st il et est ww t i',
+    to_docstring w i edd st il et est ww = Ok (t, i') -> i' = i.
+Proof. exact to_docstring_ir. Qed.
+Print Assumptions C18_to_docstring_ir.
 
 (* where nothing needs wrapping the wrapped and the unwrapped docstring are the same bytes (and the same
    post-call IR), for the three styles and every width: every parser reads the same interface *)
